@@ -396,7 +396,8 @@ pub struct Interp {
 
 impl Interp {
     pub fn new() -> Self {
-        star_frame::verif_hooks::RENT.set(Some(Rent::default()));
+        #[allow(deprecated)]
+        star_frame::verif_hooks::RENT.set(Some(Rent { lamports_per_byte_year: 3480, exemption_threshold: 2.0, burn_percent: 50 }));
         Interp { table: table(), sess: None }
     }
     pub fn reset(&mut self) {
